@@ -17,15 +17,15 @@ PROPERTY = "C02"
 LEVEL = "exploration"
 EXHAUSTIVE = {"quick": True, "thorough": True}
 RULE = (
-    "soup: every token sequence up to length L over a 30-token adversarial alphabet x 13 small formats x strict/lenient "
+    "soup: every token sequence up to length L over a 30-token adversarial alphabet x 15 small formats x strict/lenient "
     "(exhaustive for L<=3 quick, L<=4 thorough; lengths 5-6 seeded samples in thorough); mutations: valid lines from the "
     "C01 generator with exactly one planted fault (unknown long/short option, value given to a flag, required value "
     "stripped, last required argument dropped, surplus positional, ill-typed value). non-trivial = sequence with >=1 "
     "option-like token / any mutation; distinct by (format id, token tuple) / (format shape, fault kind, spelling pattern)."
 )
 BOUND = {
-    "quick": "all sequences of length <= 3 over 30 tokens x 13 formats x 2 modes; 6 fault operators x 6000 generated lines",
-    "thorough": "all sequences of length <= 4 over 30 tokens x 13 formats x 2 modes, 150000 sampled of length 5-6; 6 fault operators x 150000 generated lines",
+    "quick": "all sequences of length <= 3 over 30 tokens x 15 formats x 2 modes; 6 fault operators x 6000 generated lines",
+    "thorough": "all sequences of length <= 4 over 30 tokens x 15 formats x 2 modes, 150000 sampled of length 5-6; 6 fault operators x 150000 generated lines",
 }
 ASSUMPTIONS = [
     "fault operators are applied only where exactly one fault results (unknown options at chunk boundaries, surplus positional not after a bare optional-value option, ...)",
@@ -64,6 +64,8 @@ FORMATS = [
     dict(opts=[O("alpha", "a", "opt", "boolean", default=True), O("beta", "b", "opt", "float", True)], args=[], cmds=[], base=False),
     dict(opts=[], args=[A("one", "req", "integer"), A("two", "req", "boolean")], cmds=[], base=False),
     dict(opts=[O("alpha", None, "flag"), O("beta", None, "req")], args=[A("one", "opt")], cmds=[], base=True),
+    dict(opts=[O("alpha", "a", "opt", "boolean"), O("beta", "b", "opt", "string")], args=[A("one", "opt")], cmds=[], base=False),
+    dict(opts=[O("alpha", "a", "opt", "float"), O("beta", "b", "multi", "boolean")], args=[A("one", "opt", "boolean")], cmds=[], base=False),
 ]
 
 
